@@ -21,11 +21,16 @@ import (
 	"strings"
 	"testing"
 
+	"github.com/algorand/go-algorand/agreement"
 	"github.com/algorand/go-algorand/config"
 	"github.com/algorand/go-algorand/crypto"
 	"github.com/algorand/go-algorand/data/basics"
+	"github.com/algorand/go-algorand/data/bookkeeping"
+	"github.com/algorand/go-algorand/data/committee"
+	"github.com/algorand/go-algorand/data/transactions"
 	"github.com/algorand/go-algorand/data/transactions/logic"
 	"github.com/algorand/go-algorand/data/txntest"
+	"github.com/algorand/go-algorand/ledger/eval"
 	"github.com/algorand/go-algorand/protocol"
 	"pgregory.net/rapid"
 )
@@ -92,6 +97,51 @@ type c28Member struct {
 	AuthOK   bool   `json:"auth_ok"`
 	InnerOK  bool   `json:"inner_ok"`
 	WasRekey bool   `json:"sender_rekeyed"`
+}
+
+// c28Placed: a member of an accepted group, in payset order, with the auth address the model had for its sender
+// at that point of the block.
+type c28Placed struct {
+	sender, right basics.Address
+}
+
+// c28Finish is evkWorld.finish plus a proposer-side attack: before the block is committed, a twin of it in which
+// one transaction claims a signer that is not its sender's auth address (commitments recomputed) is handed to
+// Ledger.Validate, which must refuse it. tamper returns the payset index and the AuthAddr to plant (ok=false:
+// nothing to tamper with).
+func c28Finish(w *evkWorld, ev *eval.BlockEvaluator, tamper func(n int) (int, basics.Address, bool)) (tampered bool, twinErr error, err error) {
+	ub, err := ev.GenerateBlock(nil)
+	if err != nil {
+		return false, nil, fmt.Errorf("GenerateBlock: %w", err)
+	}
+	blk := ub.UnfinishedBlock()
+	prp := blk.BlockHeader.FeeSink
+	var fin bookkeeping.Block
+	if w.proto.Payouts.Enabled {
+		fin = blk.WithProposer(committee.Seed(prp), prp, true)
+	} else {
+		fin = blk.WithProposer(committee.Seed(prp), basics.Address{}, false)
+	}
+	if k, claim, ok := tamper(len(fin.Payset)); ok {
+		twin := fin
+		twin.Payset = append(transactions.Payset{}, fin.Payset...)
+		twin.Payset[k].SignedTxn.AuthAddr = claim
+		twin.TxnCommitments, err = twin.PaysetCommit()
+		if err != nil {
+			return false, nil, fmt.Errorf("PaysetCommit of the tampered twin: %w", err)
+		}
+		_, twinErr = validateWithoutSignatures(w.t, w.l, twin)
+		tampered = true
+	}
+	vvb, err := validateWithoutSignatures(w.t, w.l, fin)
+	if err != nil {
+		return tampered, twinErr, fmt.Errorf("Validate: %w", err)
+	}
+	if err = w.l.AddValidatedBlock(*vvb, agreement.Certificate{}); err != nil {
+		return tampered, twinErr, fmt.Errorf("AddValidatedBlock: %w", err)
+	}
+	w.l.WaitForCommit(w.l.Latest())
+	return tampered, twinErr, nil
 }
 
 func c28IsAuthErr(err error) bool {
@@ -217,12 +267,14 @@ func TestVerif_C28_Evaluator(t *testing.T) {
 				rt.Fatalf("harness: start evaluator: %v", err)
 			}
 			nGroups := rapid.IntRange(1, 4).Draw(rt, "groups")
+			var placed []c28Placed
 			for gI := 0; gI < nGroups; gI++ {
 				tent := model.clone()
 				n := rapid.SampledFrom([]int{1, 1, 2, 2, 3}).Draw(rt, "members")
 				txns := make([]*txntest.Txn, n)
 				claims := make([]basics.Address, n) // AuthAddr to put on the signed transaction (zero = absent)
 				desc := make([]c28Member, n)
+				rights := make([]c28Placed, n)
 				expect := true
 				nontrivial := false
 				var prev basics.Address
@@ -250,6 +302,7 @@ func TestVerif_C28_Evaluator(t *testing.T) {
 					prev = s
 					right := tent.cur(s)
 					d := c28Member{Sender: nm(s), WasRekey: right != s}
+					rights[i] = c28Placed{sender: s, right: right}
 					// claimed signer
 					var claim basics.Address // as it goes on the wire
 					switch rapid.SampledFrom([]string{"right", "right", "right", "right", "right", "old", "third", "bare", "explicit-self"}).Draw(rt, "claim") {
@@ -385,6 +438,7 @@ func TestVerif_C28_Evaluator(t *testing.T) {
 				}
 				if gerr == nil {
 					model = tent
+					placed = append(placed, rights...)
 				}
 				if nontrivial {
 					nontrivialCase = true
@@ -404,8 +458,44 @@ func TestVerif_C28_Evaluator(t *testing.T) {
 				}
 				vk.Labelf("group size=%d verdict=%s", n, verdict)
 			}
-			if _, err := w.finish(ev); err != nil {
+			tamperNote := ""
+			tampered, twinErr, err := c28Finish(w, ev, func(np int) (int, basics.Address, bool) {
+				if np != len(placed) {
+					rt.Fatalf("harness: payset has %d transactions, %d members were accepted", np, len(placed))
+				}
+				if np == 0 {
+					return 0, basics.Address{}, false
+				}
+				k := rapid.IntRange(0, np-1).Draw(rt, "tamperIdx")
+				cands := append(append([]basics.Address{}, anyAddr...), basics.Address{})
+				off := rapid.IntRange(0, len(cands)-1).Draw(rt, "tamperClaim")
+				for j := range cands {
+					c := cands[(off+j)%len(cands)]
+					claimed := c
+					if claimed.IsZero() {
+						claimed = placed[k].sender
+					}
+					if claimed != placed[k].right {
+						tamperNote = fmt.Sprintf("b%d twin: payset[%d] sender=%s right=%s claims %s", b, k, nm(placed[k].sender), nm(placed[k].right), nm(claimed))
+						return k, c, true
+					}
+				}
+				return 0, basics.Address{}, false
+			})
+			if err != nil {
 				rt.Fatalf("C28 block built from accepted groups does not generate/validate/commit: %v\nproto=%s\nhistory:\n%s", err, cv, strings.Join(history, "\n"))
+			}
+			if tampered {
+				history = append(history, tamperNote)
+				switch {
+				case twinErr == nil:
+					rt.Fatalf("C28 Ledger.Validate accepted a block in which a transaction claims a signer that is not its sender's auth address\n%s\nproto=%s\nhistory:\n%s", tamperNote, cv, strings.Join(history, "\n"))
+				case c28IsAuthErr(twinErr):
+					vk.Label("tampered-twin-refused-by-authorizer-check")
+					nontrivialCase = true
+				default:
+					vk.Excluded("tampered-twin-refused-by-another-check:" + evkErrClass(twinErr))
+				}
 			}
 			// the committed auth addresses are the model's
 			for _, a := range anyAddr {
